@@ -158,6 +158,12 @@ def exclude_source_of_crossed_derived(case, v=None):
 
 # M9 ------------------------------------------------------------------------------------------------
 def shared_weighted_uncrossed_in_subblock(case, v=None):
+    if case.get("spec_b") is not None and "spec" not in case:
+        return any(_shared_wu({"spec": case[k]}) for k in ("spec_a", "spec_b"))
+    return _shared_wu(case)
+
+
+def _shared_wu(case, v=None):
     """A Merge/Nest/Repeat tree in which some sub-block has a weighted basic factor in its design but not in its
     crossing (so that sub-block desugars the factor on its own; the combined design then holds the original and
     the desugared factors under one name)."""
